@@ -168,52 +168,15 @@ Definition apply_same (obs spec : list (option val) * list val) : bool :=
 (* ---- the public calls (what the correspondence cases evaluate) ---- *)
 (* Frame.iter_group_items(key, axis=axis):
    key = None models a key label that is not on the opposite axis;
-   multi: the key is a list/slice/mask (KEY_MULTIPLE_TYPES), nkeys: how many positions it selects;
-   obj: the extracted key array has dtype object.
-   One-row list key on axis 1: TypeBlocks.group leaves unique_axis = None for the 2-D (1, ncols)
-   source, NumPy >= 2 then returns the inverse in the input's SHAPE, `locations == idx` is a 2-D
-   mask and the column extraction raises ValueError (a finding: the model follows the code). *)
-(* axis 1, list/slice key of >= 2 rows, OBJECT key array (a finding: the model follows the code).
-   np.unique(axis=1) refuses object dtype, the string branch then restores the group labels with
-   `array[group_index]` -- indexing ROWS (axis 0) of the (nkeys, ncols) source with COLUMN positions:
-   IndexError when a position is >= nkeys; otherwise `groups` has shape (ngroups, ncols), is
-   transposed and iterated, so ncols "groups" are yielded, the j-th labelled by column j of the
-   picked rows and holding the columns whose string key is the j-th distinct one (none for
-   j >= ngroups). *)
-Definition M_axis1_multi_obj (ps : list nat) (rows : list row) : res (list (option val * list row)) :=
-  let kcells := fun r : row => map (fun p => nth p (snd r) VNone) ps in
-  let rcs := map (fun r => VTup (map val_repr (kcells r))) rows in
-  let '(u, locs) := np_unique val_eqb val_leb rcs in
-  let group_index := map (fun s => index_of val_eqb s rcs) u in
-  if existsb (fun gi => Nat.leb (length ps) gi) group_index then Err "IndexError"
-  else
-    let picked := map (fun gi => map (fun r : row => nth (nth gi ps 0%nat) (snd r) VNone) rows) group_index in
-    Ok (map (fun jr => (Some (VTup (map (fun g => nth (fst jr) g VNone) picked)),
-                        mask_select (map (fun l => Nat.eqb l (fst jr)) locs) rows))
-            (enumerate_from 0 rows)).
-
-Definition keyspec_positions (ks : keyspec) : list nat :=
-  match ks with KCell p => [p] | KCells ps => ps | _ => [] end.
-
-Definition M_frame_group_api (axis : Z) (key : option keyspec) (multi cdepth1 idepth1 obj : bool) (nkeys : nat)
+   multi: the key is a list/slice/mask (KEY_MULTIPLE_TYPES): the key array is 2-D and np.unique is
+   called with axis= (also for a key selecting a single row/column: type_blocks.py:797-803);
+   obj: the extracted key array has dtype object. *)
+Definition M_frame_group_api (axis : Z) (key : option keyspec) (multi cdepth1 idepth1 obj : bool)
            (rows : list row) : res (list (option val * list row)) :=
   if negb ((axis =? 0) || (axis =? 1)) then Err "AxisInvalid"
   else match key with
        | None => Err "KeyError"
-       | Some ks =>
-           match rows with
-           | [] => Ok []
-           | _ => if (axis =? 1) && multi && Nat.eqb nkeys 1
-                  then (* the (1, ncols) source is flattened by np.unique(axis=None); if it is an unorderable
-                          object array the string branch indexes axis 0 with flat positions first *)
-                       let ks1 := map (raw_key_of (KCell (nth 0 (keyspec_positions ks) 0%nat))) rows in
-                       Err (if Nat.eqb (length rows) 1 then "IndexError"
-                            else if obj && negb (orderable ks1) &&
-                                    Nat.leb 2 (length (distinct val_eqb (map val_repr ks1))) then "IndexError"
-                            else "ValueError")
-                  else if (axis =? 1) && multi && obj then M_axis1_multi_obj (keyspec_positions ks) rows
-                  else Ok (M_frame_group cdepth1 idepth1 multi obj multi ks rows)
-           end
+       | Some ks => Ok (M_frame_group cdepth1 idepth1 multi obj multi ks rows)
        end.
 
 Definition S_frame_group_api (axis : Z) (key : option keyspec) (rows : list row) : res (list (option val * list row)) :=
@@ -238,21 +201,13 @@ Definition S_group_api (ks : keyspec) (rows : list row) : res (list (option val 
 Definition gres_eqb (a b : res (list (option val * list row))) : bool := res_eqb groups_eqb a b.
 Definition gres_same (obs spec : res (list (option val * list row))) : bool := res_eqb groups_same obs spec.
 
-(* .apply(func) over the groups: Series.from_items((key, func(group)), ...).
-   unhashable: Frame.iter_group_labels with a LIST of depths yields ndarray keys (frame.py:4455
-   never uses group_to_tuple), so building the result index raises TypeError (a finding). *)
+(* .apply(func) over the groups: Series.from_items((key, func(group)), ...) *)
 Definition apply_of (all : list row) (gs : list (option val * list row)) : list (option val) * list val :=
   (map fst gs, map (fun g => bitmask all (snd g)) gs).
 
-Definition M_apply_api (unhashable : bool) (all : list row) (gs : res (list (option val * list row)))
+Definition M_apply_api (all : list row) (gs : res (list (option val * list row)))
   : res (list (option val) * list val) :=
-  match gs with
-  | Err e => Err e
-  | Ok g => match g with
-            | [] => Ok ([], [])
-            | _ => if unhashable then Err "TypeError" else Ok (apply_of all g)
-            end
-  end.
+  match gs with Err e => Err e | Ok g => Ok (apply_of all g) end.
 
 Definition S_apply_api (all : list row) (gs : res (list (option val * list row)))
   : res (list (option val) * list val) :=
